@@ -266,7 +266,7 @@ template <typename T> void run_case(std::istream &in, int next) {
     struct slot { std::unique_ptr<future<T>> f; bool reported = false; };
     std::deque<slot> slots;
     std::unique_ptr<thread_pool> pool;
-    alarm(60);
+    alarm(15);
 
     auto set_val = [&](int k, long v) -> bool {
         if constexpr (std::is_void_v<T>) return (*wd.ext[k].prom)();
